@@ -4,7 +4,7 @@ from __future__ import annotations
 
 from typing import Any, List
 
-SPINES = ["arr", "obj2", "nest1", "nest2", "nest3", "deep", "objarr", "numkeys"]
+SPINES = ["arr", "obj2", "nest1", "nest2", "nest3", "deep", "objarr", "numkeys", "wrapobjarr"]
 
 
 def build(spine: str, L: List[Any], n: int, b: List[bool]) -> Any:
@@ -55,6 +55,13 @@ def build(spine: str, L: List[Any], n: int, b: List[bool]) -> Any:
             if i < n:
                 out.append({"a": L[2 * i], "b": L[2 * i + 1]} if b[i] else {"a": L[2 * i]})
         return out
+    if spine == "wrapobjarr":
+        # an array of two-member objects under a name: a node two levels below an array index has siblings
+        out = []
+        for i in range(3):
+            if i < n:
+                out.append({"a": L[2 * i], "b": L[2 * i + 1]})
+        return {"xs": out, "k": L[5]}
     if spine == "numkeys":
         d = {}
         if b[0]:
